@@ -55,8 +55,12 @@ void h_s2c_sign(void) {
             __CPROVER_assert(nonv != 0 && nonv < n && (unsigned char)(nonv >> (8 * (31 - k))) == g_nf_out_byte, "C15 s2c_sign: the original nonce k is the RFC 6979 output, in [1, n)");
             __CPROVER_assert(g_genl_ctx == &ctx.ecmult_gen_ctx, "C15 s2c_sign: k*G uses the context's generator table");
             __CPROVER_assert(FE_EQ(g_sgl_a.x, g_genl_r.x) && FE_EQ(g_sgl_a.y, g_genl_r.y) && FE_EQ(g_sgl_a.z, g_genl_r.z) && g_sgl_a.infinity == g_genl_r.infinity, "C15 s2c_sign: the original nonce point is the affine form of k*G");
-            if (use_op) __CPROVER_assert(le256(&op.data[0]) == fmodp(&g_sgl_r.x) && le256(&op.data[32]) == fmodp(&g_sgl_r.y), "C15 s2c_sign: opening = save(original nonce point)");
-            __CPROVER_assert(g_cs_ret == 1 && SC_EQ(g_cs_in, g_genl_a) && fmodp(&g_cs_p.x) == fmodp(&g_sgl_r.x) && fmodp(&g_cs_p.y) == fmodp(&g_sgl_r.y) && g_cs_p.infinity == g_sgl_r.infinity, "C15 s2c_sign: the nonce is tweaked by ec_commit_seckey(k, original nonce point, ...)");
+            if (use_op) {   /* stated with the real save function on the logged point (its byte-level spec: C03/C05 units); same circuit twice = cheap for the solver */
+                secp256k1_ge pt = g_sgl_r; secp256k1_ecdsa_s2c_opening expect;
+                secp256k1_ecdsa_s2c_opening_save(&expect, &pt);
+                __CPROVER_assert(op.data[k] == expect.data[k] && op.data[k + 32] == expect.data[k + 32], "C15 s2c_sign: opening = save(original nonce point)");
+            }
+            __CPROVER_assert(g_cs_ret == 1 && SC_EQ(g_cs_in, g_genl_a) && FE_EQ(g_cs_p.x, g_sgl_r.x) && FE_EQ(g_cs_p.y, g_sgl_r.y) && g_cs_p.infinity == g_sgl_r.infinity, "C15 s2c_sign: the nonce is tweaked by ec_commit_seckey(k, original nonce point, ...)");
             __CPROVER_assert(g_cs_data == data32 && g_cs_size == 32 && g_cs_hctx == &ctx.hash_ctx, "C15 s2c_sign: the commitment is to s2c_data32[0..32), hashed with the context's hash context");
             /* FINDING (DESIGN section 7 candidate, see report): fails on the unfixed tree.  The caller's tagged hash object is finalized by the
              * first attempt and re-used by a retry after a core-signer failure (r = 0 or s = 0; cryptographically unreachable).  Native
